@@ -147,6 +147,12 @@ def ref_eval(tokens, lookup):
         return t
 
     def apply(op, a, b):
+        if op in ("<<", ">>") and (b is None or b > 4096):
+            # a shift count that is unknown (depends on an unspecified sub-result) or enormous: never handed to the library
+            flags["bot"] = True
+            if op == "<<":
+                flags["huge"] = True
+            return None
         if a is None or b is None:
             return None
         if op in ("/", "%"):
